@@ -32,6 +32,9 @@ def run(ctx):
     ctx.rule('C12.a-forwarding', 'public result methods forward to the work accessors')
     ctx.rule('C11.e-placement-agreement', 'the work positions each decoder treats as originals / recovery shards are the base positions it configured at reset (where add_* stores them and the accessor reads them)')
     ctx.rule('C11.d-all-present-shortcut', 'decode_begin yields None exactly when all originals were received and decode then returns the untouched result')
+    ctx.rule('C11.f-round-starts-clean', 'every round starts with an empty received bitmap and zero counters (implicit and explicit reset), so that which shards count as given depends on this round only (clause shared with C05.a/b)')
+    ctx.guard('C11.analysable', ctx.shared, {'X.full': 'C11.f-round-starts-clean', 'X.recv': 'C11.f-round-starts-clean', 'X.drop': 'C11.f-round-starts-clean'},
+              resetrules.check_reset_discipline, ctx, ctx.facts(cfgs[0]), cfgs[0], 'X.drop', 'X.recv', 'X.full')
     for cfg in cfgs:
         facts = ctx.facts(cfg)
         ctx.guard('C11.analysable', add_effects, ctx, facts, cfg)
